@@ -32,3 +32,12 @@
 ; sig hostof : Str -> Str
 (declare-fun splitok (Str) Bool)
 (declare-fun hostof (Str) Str)
+; fields of a string split at a separator (strings.Split), and the value of an unsigned decimal/hex/octal literal
+; (strconv.ParseUint with base 0), both uninterpreted: contracts only pin which text is split and parsed
+; sig nfields : Str Str -> Int
+; sig fieldof : Str Str Int -> Str
+; sig uintval : Str -> Int
+(declare-fun nfields (Str Str) Int)
+(declare-fun fieldof (Str Str Int) Str)
+(declare-fun uintval (Str) Int)
+(assert (forall ((s Str) (sep Str)) (! (>= (nfields s sep) 1) :pattern ((nfields s sep)))))
